@@ -606,6 +606,34 @@ var Faults = []Fault{
 		}
 		return false
 	}},
+	{"oneof-nullable-variable", "ValuesOfCorrectType", func(c *FCtx) bool {
+		// the single field of a @oneOf literal takes a NULLABLE variable; half of the time the variable has a non-null default,
+		// which makes a nullable variable acceptable at an ordinary non-null position but not here
+		ops := c.ops()
+		if len(ops) != 1 {
+			return false
+		}
+		tv, ok := c.pickValue(func(tv typedValue, td *tsys.Def) bool {
+			return !tv.konst && td != nil && td.Kind == "input" && td.HasDir("oneOf") && tv.val.Kind == m.VObject && len(tv.val.Fields) == 1 && td.Field(tv.val.Fields[0].Name) != nil
+		})
+		if !ok {
+			return false
+		}
+		td := c.Mg.Types[tv.typ.Base()]
+		fd := td.Field(tv.val.Fields[0].Name)
+		vt := cloneType(fd.Type)
+		vt.NonNull = false
+		vd := m.VarDef{Name: "oneOfVar", Type: vt}
+		if c.R.Bool() {
+			nn := cloneType(fd.Type)
+			nn.NonNull = true
+			vd.Default = tsys.GenValue(c.R, c.g.Lookup, nn, 1, false)
+		}
+		ops[0].Vars = append(ops[0].Vars, vd)
+		ops[0].Shorthand = false
+		tv.val.Fields[0].Value = val(m.VVar, "oneOfVar")
+		return true
+	}},
 	{"oneof-null-field", "ValuesOfCorrectType", func(c *FCtx) bool {
 		tv, ok := c.pickValue(func(tv typedValue, td *tsys.Def) bool {
 			return td != nil && td.Kind == "input" && td.HasDir("oneOf") && tv.val.Kind == m.VObject && len(tv.val.Fields) == 1
@@ -637,6 +665,46 @@ var Faults = []Fault{
 			return false
 		}
 		s.sel().Dirs = append(s.sel().Dirs, m.Dir{Name: "deprecated"})
+		return true
+	}},
+	{"misplaced-directive-with-other-faults", "KnownDirectives", func(c *FCtx) bool {
+		// a directive the schema defines, used where its definition does not allow it AND (a) without one of its required
+		// arguments or (b) twice although it is not repeatable or (c) twice and repeatable: the rules that judge the other
+		// aspects must not depend on what the location rule did with the node
+		s, ok := c.pick(c.sites(), func(s selSite) bool { return s.sel().Kind == m.SField })
+		if !ok {
+			return false
+		}
+		var cands []*m.Item
+		for _, n := range c.Mg.DirectiveNames() {
+			d := c.Mg.Directives[n]
+			allowed := false
+			for _, l := range d.Locations {
+				if l == "FIELD" {
+					allowed = true
+				}
+			}
+			if !allowed {
+				cands = append(cands, d)
+			}
+		}
+		if len(cands) == 0 {
+			return false
+		}
+		d := cands[c.R.Intn(len(cands))]
+		use := m.Dir{Name: d.Name}
+		if c.R.Bool() {
+			// all required arguments present
+			for _, a := range d.Args {
+				if a.Type.NonNull && a.Default == nil {
+					use.Args = append(use.Args, m.Arg{Name: a.Name, Value: tsys.GenValue(c.R, c.g.Lookup, a.Type, 1, false)})
+				}
+			}
+		}
+		s.sel().Dirs = append(s.sel().Dirs, use)
+		if c.R.Bool() {
+			s.sel().Dirs = append(s.sel().Dirs, m.Dir{Name: d.Name, Args: cloneArgs(use.Args)})
+		}
 		return true
 	}},
 	{"repeated-directive", "UniqueDirectivesPerLocation", func(c *FCtx) bool {
@@ -976,14 +1044,22 @@ var Faults = []Fault{
 			return false
 		}
 		d := &m.Def{Op: "subscription", Name: "TwoFields"}
-		switch c.R.Intn(3) {
+		switch c.R.Intn(5) {
 		case 0: // two aliases of one field
 			d.Sel = []*m.Sel{{Kind: m.SField, Alias: "x", Name: f.Name}, {Kind: m.SField, Alias: "y", Name: f.Name}}
 		case 1: // second one through an inline fragment
 			d.Sel = []*m.Sel{{Kind: m.SField, Name: f.Name}, {Kind: m.SInline, Sel: []*m.Sel{{Kind: m.SField, Alias: "other", Name: f.Name}}}}
-		default: // through a fragment
+		case 2: // through a fragment
 			c.Doc.Defs = append(c.Doc.Defs, &m.Def{IsFragment: true, Name: "SubFrag", TypeCond: rootName, Sel: []*m.Sel{{Kind: m.SField, Alias: "viaFragment", Name: f.Name}}})
 			d.Sel = []*m.Sel{{Kind: m.SField, Name: f.Name}, {Kind: m.SSpread, Name: "SubFrag"}}
+		case 3: // the same fragment spread twice (that alone is one root field), then another field
+			c.Doc.Defs = append(c.Doc.Defs, &m.Def{IsFragment: true, Name: "SubFrag", TypeCond: rootName, Sel: []*m.Sel{{Kind: m.SField, Name: f.Name}}})
+			d.Sel = []*m.Sel{{Kind: m.SSpread, Name: "SubFrag"}, {Kind: m.SSpread, Name: "SubFrag"}, {Kind: m.SField, Alias: "afterRepeatedSpread", Name: f.Name}}
+		default: // a fragment reached twice, once through another fragment, then another field
+			c.Doc.Defs = append(c.Doc.Defs,
+				&m.Def{IsFragment: true, Name: "SubFrag", TypeCond: rootName, Sel: []*m.Sel{{Kind: m.SField, Name: f.Name}}},
+				&m.Def{IsFragment: true, Name: "SubOuter", TypeCond: rootName, Sel: []*m.Sel{{Kind: m.SSpread, Name: "SubFrag"}}})
+			d.Sel = []*m.Sel{{Kind: m.SSpread, Name: "SubOuter"}, {Kind: m.SSpread, Name: "SubFrag"}, {Kind: m.SInline, Sel: []*m.Sel{{Kind: m.SField, Alias: "afterRepeatedSpread", Name: f.Name}}}}
 		}
 		c.nameAll()
 		c.Doc.Defs = append(c.Doc.Defs, d)
